@@ -56,7 +56,8 @@ DISTS = ["unstable", "experimental", "stable testing", "bookworm-security", "UNR
 URG = ["low", "medium", "HIGH", "emergency", "low (HIGH for users of x)"]
 AUTH = ["A B <a@b.org>", "Ünï Cöde <u@example.com>", "X <x@y>", "Mr. O'Neil, Jr. <o@n.ie>"]
 DATES = ["Mon, 01 Jan 2024 10:00:00 +0000", "Tue, 2 Feb 2021 09:08:07 -0500",
-         "Sat, 31 Dec 2022 23:59:59 +1300"]
+         "Sat, 31 Dec 2022 23:59:59 +1300",
+         "Wed, 03 Jan 2024 10:00:00 +0000 "]      # white space after the time zone
 CHANGES = ["  * Fix a bug.", "  * New upstream release (closes: #123456, #7)", "    continuation",
            "  [ Someone ]", "  * lp: #99", "", "  * ünï", "  * 50% faster; %s, {0} and \\1 kept"]
 INSERT = {
@@ -86,6 +87,12 @@ def gen_changelog(rng):
                                           rng.choice(URG))
         if rng.random() < 0.15:
             hdr += ", binary-only=yes"
+        if rng.random() < 0.1:
+            # several more header pairs, under varying names and in varying order
+            names = rng.sample(["binary-only", "origin", "build", "target", "x-note", "x-id",
+                                "zz", "k0", "k1", "k2", "k3", "k4", "k5", "k6", "k7"],
+                               rng.randint(2, 4))
+            hdr += "".join(", %s=v%d" % (n_, i_) for i_, n_ in enumerate(names))
         lines.append(hdr)
         lines.append("")
         for _ in range(rng.randint(1, 3)):
